@@ -90,6 +90,28 @@ def generate(rng, tier):
                 taken.add(dst)
                 moved.add(src)
                 renames.append({"op": "rename", "src": src, "dst": dst, "fault": "rename_in-place", "kind": "in-place"})
+    if not nested_d1 and rng.random() < 0.12:
+        # a file takes over the NAME that another recorded file gives up in the same step (in another folder):
+        # day1/a.mov -> selects/b.mov while day2/b.mov -> day2/b_alt.mov
+        pool = [f for f in files if f not in moved]
+        rng.shuffle(pool)
+        for src_a in pool:
+            others = [src_b for src_b in pool if src_b != src_a and os.path.basename(src_b) != os.path.basename(src_a)]
+            if not others:
+                continue
+            src_b = rng.choice(others)
+            d1 = rng.choice([d for d in dirs if d != os.path.dirname(src_b)] or [None])
+            if d1 is None:
+                continue
+            dst1 = os.path.normpath(os.path.join(d1, os.path.basename(src_b)))
+            dst2 = os.path.normpath(os.path.join(os.path.dirname(src_b), "alt_%d_" % rng.randrange(99) + os.path.basename(src_b)))
+            if dst1 in taken or dst2 in taken:
+                continue
+            taken |= {dst1, dst2}
+            moved |= {src_a, src_b}
+            renames.append({"op": "rename", "src": src_a, "dst": dst1, "fault": "rename_move-and-rename", "kind": "move-and-rename"})
+            renames.append({"op": "rename", "src": src_b, "dst": dst2, "fault": "rename_in-place", "kind": "in-place"})
+            break
     for _ in range(rng.randint(0 if renames else 1, 4)):
         cands = [f for f in files if f not in moved]
         if nested_d1:
